@@ -108,6 +108,14 @@ namespace Pistache::Http
         bool match_attribute(const char* name, size_t len, StreamCursor& cursor,
                              Cookie* obj, T Cookie::*attr)
         {
+            // the attribute name must end here: "Pathx=1" is an extension attribute
+            if (cursor.remaining() > len)
+            {
+                const char following = cursor.offset()[len];
+                if (following != '=' && following != ';')
+                    return false;
+            }
+
             if (match_string(name, len, cursor))
             {
                 AttributeMatcher<T>::match(cursor, obj, attr);
